@@ -545,18 +545,18 @@ func initReflect(i *Machine) {
 		"PkgPath":    newMethod(i.reflectPackage, rtypeType, "PkgPath"),
 		"Len":        newMethod(i.reflectPackage, rtypeType, "Len"),
 		"Comparable": newMethod(i.reflectPackage, rtypeType, "Comparable"),
-		"Bits":      newMethod(i.reflectPackage, rtypeType, "Bits"),
-		"Elem":      newMethod(i.reflectPackage, rtypeType, "Elem"),
-		"Field":     newMethod(i.reflectPackage, rtypeType, "Field"),
-		"In":        newMethod(i.reflectPackage, rtypeType, "In"),
-		"Kind":      newMethod(i.reflectPackage, rtypeType, "Kind"),
-		"NumField":  newMethod(i.reflectPackage, rtypeType, "NumField"),
-		"NumIn":     newMethod(i.reflectPackage, rtypeType, "NumIn"),
-		"NumMethod": newMethod(i.reflectPackage, rtypeType, "NumMethod"),
-		"NumOut":    newMethod(i.reflectPackage, rtypeType, "NumOut"),
-		"Out":       newMethod(i.reflectPackage, rtypeType, "Out"),
-		"Size":      newMethod(i.reflectPackage, rtypeType, "Size"),
-		"String":    newMethod(i.reflectPackage, rtypeType, "String"),
+		"Bits":       newMethod(i.reflectPackage, rtypeType, "Bits"),
+		"Elem":       newMethod(i.reflectPackage, rtypeType, "Elem"),
+		"Field":      newMethod(i.reflectPackage, rtypeType, "Field"),
+		"In":         newMethod(i.reflectPackage, rtypeType, "In"),
+		"Kind":       newMethod(i.reflectPackage, rtypeType, "Kind"),
+		"NumField":   newMethod(i.reflectPackage, rtypeType, "NumField"),
+		"NumIn":      newMethod(i.reflectPackage, rtypeType, "NumIn"),
+		"NumMethod":  newMethod(i.reflectPackage, rtypeType, "NumMethod"),
+		"NumOut":     newMethod(i.reflectPackage, rtypeType, "NumOut"),
+		"Out":        newMethod(i.reflectPackage, rtypeType, "Out"),
+		"Size":       newMethod(i.reflectPackage, rtypeType, "Size"),
+		"String":     newMethod(i.reflectPackage, rtypeType, "String"),
 	}
 	i.errorMethods = methodSet{
 		"Error": newMethod(i.reflectPackage, errorType, "Error"),
